@@ -902,7 +902,8 @@ def platform_call(fname: Optional[str], fval: Optional[V], call: ast.Call, args:
     if isinstance(fval, K) and isinstance(fval.v, str) and isinstance(call.func, ast.Attribute) and call.func.attr in _STR_FOLD \
             and all(isinstance(a, K) for a in args) and not kwargs:
         try:
-            r = getattr(fval.v, call.func.attr)(*[a.v for a in args])
+            raw = [tuple(x.v if isinstance(x, K) else x for x in a.v) if isinstance(a.v, tuple) else a.v for a in args]  # startswith(("a", "b"))
+            r = getattr(fval.v, call.func.attr)(*raw)
         except Exception:
             return None
         if isinstance(r, list):
